@@ -44,15 +44,23 @@ fn cycle_refs<T>(this: Link<T>) -> HashMap<Link<T>, usize> {
     let mut cycle_owned_refs = HashMap::default();
     let mut discovered = vec![this];
     let mut visited = HashSet::default();
+    #[cfg(cactusref_verif)]
+    crate::verif::bump(&crate::verif::TRACE_CALLS, 1);
 
     // crawl the graph
     while let Some(node) = discovered.pop() {
+        #[cfg(cactusref_verif)]
+        crate::verif::bump(&crate::verif::TRACE_POPS, 1);
         if visited.contains(&node) {
             continue;
         }
         visited.insert(node);
+        #[cfg(cactusref_verif)]
+        crate::verif::bump(&crate::verif::TRACE_VISITS, 1);
 
         let links = unsafe { node.as_ref().links().borrow() };
+        #[cfg(cactusref_verif)]
+        crate::verif::bump(&crate::verif::TRACE_SCANNED, links.iter().len());
         for (&link, &strong) in links.iter() {
             if let Kind::Forward | Kind::Loopback = link.kind() {
                 cycle_owned_refs
